@@ -107,6 +107,10 @@ func c09BestDialer(ctx context.Context, req *udpRequest, upstream *componentdns.
 	return &dialArgument{l4proto: l4, ipversion: consts.IpVersionStr_4, bestTarget: netip.AddrPortFrom(ip, upstream.Port)}, nil
 }
 
+// c09Prefer: dns.ip_version_prefer of the controller the next c09NewCtlEnv builds
+// (0 = off). Cases run one at a time, so a package variable is enough.
+var c09Prefer int
+
 func c09NewCtlEnv(mode string) (*c09CtlEnv, error) {
 	c09ResetGlobals()
 	w := c09NewWorld()
@@ -121,6 +125,7 @@ func c09NewCtlEnv(mode string) (*c09CtlEnv, error) {
 			LifecycleContext:  context.Background(),
 			NewCache:          c09NewCacheFn,
 			BestDialerChooser: c09BestDialer,
+			IpVersionPrefer:   c09Prefer,
 			// the production seam between a client's own cache lookup (which evicts an
 			// expired entry) and its entry into the singleflight
 			CacheDeleteCallback: w.cacheDeleteCallback,
@@ -318,7 +323,11 @@ func c09ControllerCase(t *rapid.T) {
 			cl.cancel()
 		}
 	}()
+	// ip_version_prefer: answers of the non-preferred family are held back briefly for
+	// the preferred one; whatever is released must still be the client's own reply
+	c09Prefer = rapid.SampledFrom([]int{0, 0, 0, 4, 6}).Draw(t, "ip_version_prefer")
 	env, err := c09NewCtlEnv(mode)
+	c09Prefer = 0
 	if err != nil {
 		t.Fatalf("harness: cannot build controller: %v", err)
 	}
@@ -326,7 +335,7 @@ func c09ControllerCase(t *rapid.T) {
 	w := env.w
 
 	var trace []string
-	classes := map[string]bool{"mode:" + mode: true}
+	classes := map[string]bool{"mode:" + mode: true, fmt.Sprintf("ip_version_prefer_%d", env.c.currentQtypePrefer()): true}
 	fail := func(format string, a ...any) {
 		t.Fatalf("C09 violated: %s\nmode=%s\nschedule:\n  %s", fmt.Sprintf(format, a...), mode, strings.Join(trace, "\n  "))
 	}
@@ -426,8 +435,17 @@ func c09ControllerCase(t *rapid.T) {
 			fail("the UDP attempt for %s ended with %s but no TCP retry was started for this tcp+udp upstream", key, c09ActString(act))
 		}
 		// resolution over: every waiter must have its result now, and the same one.
+		// (with ip_version_prefer an answer of the other family is held back for the
+		// documented resolution delay first)
+		prefer := env.c.currentQtypePrefer()
 		nOK, nErr := 0, 0
 		for _, cl := range before {
+			if prefer != 0 && (cl.qtype == dnsmessage.TypeA || cl.qtype == dnsmessage.TypeAAAA) && cl.qtype != prefer {
+				// held back for the preferred family's answer (which the schedule may
+				// release within the delay): its reply is validated at the end
+				classes["non_preferred_answer_held_back"] = true
+				continue
+			}
 			if cl.cancelled {
 				// its own request was cancelled: whatever it gets is accepted (what it
 				// was sent, if anything, is still validated at the end)
